@@ -93,8 +93,10 @@ def gen_scenario(r, sid, legacy, long=False):
         funcs.append({"name": "f%d" % k, "decs": decs})
     nb = r.randint(2, 8 if long else 5)
     bursts = [[{"e": r.choice("ab"), "s": rnd_state(r)} for _ in range(r.choice([1, 1, 1, 2, 3]))] for _ in range(nb)]
+    # who issues the operations of a burst: the environment (hass.states) or a script (state.set / state.delete)
+    srcs = [r.choice(["env", "env", "script"]) for _ in bursts]
     return {"sid": sid, "legacy": legacy, "init": {"a": rnd_state(r), "b": rnd_state(r)}, "funcs": funcs,
-            "bursts": bursts}
+            "bursts": bursts, "srcs": srcs}
 
 
 def scenario_source(scn):
@@ -103,6 +105,9 @@ def scenario_source(scn):
         for d in f["decs"]:
             src.append(decorator_src(d["form"], d["style"]))
         src.append("def %s(**kw):\n    vf.rec(%r, kw)\n" % (f["name"], f["name"]))
+    src.append("@service\ndef setter(ops=None):\n    for op in ops:\n        if op[1] is None:\n"
+               "            if state.exist(op[0]):\n                state.delete(op[0])\n"
+               "        else:\n            state.set(op[0], op[1], new_attributes=op[2])\n")
     return "\n".join(src)
 
 
@@ -118,13 +123,18 @@ def run_scenario(scn):
 
     async def body(w):
         w.take()
-        for ops in scn["bursts"]:
-            for op in ops:
-                ent = "pyscript." + op["e"]
-                if op["s"] == ABS:
-                    w.hass.states.async_remove(ent)
-                else:
-                    w.hass.states.async_set(ent, op["s"]["v"], {"x": op["s"]["x"]} if op["s"]["x"] != "-" else {})
+        for bi, ops in enumerate(scn["bursts"]):
+            if scn.get("srcs", ["env"] * len(scn["bursts"]))[bi] == "script":
+                sops = [["pyscript." + op["e"], None if op["s"] == ABS else op["s"]["v"],
+                         {} if op["s"]["x"] == "-" else {"x": op["s"]["x"]}] for op in ops]
+                await w.hass.services.async_call("pyscript", "setter", {"ops": sops}, blocking=True)
+            else:
+                for op in ops:
+                    ent = "pyscript." + op["e"]
+                    if op["s"] == ABS:
+                        w.hass.states.async_remove(ent)
+                    else:
+                        w.hass.states.async_set(ent, op["s"]["v"], {"x": op["s"]["x"]} if op["s"]["x"] != "-" else {})
             await w.settle()
             runs = []
             for (_, a, _) in w.take():
@@ -258,7 +268,7 @@ def main(ctx):
     ctx.cov["scenarios"] = len(results)
     ctx.cov["evaluations"] = len(cases)
     ctx.cov["distinct_nontrivial"] = len(nontrivial)
-    ctx.cov["rule"] = ("random histories (2-8 bursts of 1-3 set/remove operations over 2 entities) x 1-3 functions "
+    ctx.cov["rule"] = ("random histories (2-8 bursts of 1-3 set/remove operations over 2 entities, issued by the environment or by a script through state.set/state.delete, attribute present or absent) x 1-3 functions "
                        "with 1-2 @state_trigger decorators drawn from spec/trig_forms.json, 4 argument styles, both "
                        "subsystems alternating; non-trivial = at least one run observed; distinct by (form, init, bursts)")
     ctx.cov["runs_observed"] = sum(len(b["runs"]) for c in cases for b in c["bursts"])
